@@ -13,7 +13,9 @@ def run_seq(prop, tier, test, assumptions, rule, level='model_checking', env=Non
     binary = build()
     e = {'VERIF_TIER': tier, 'VERIF_DEADLINE': str(int(t0 + budget)), 'GOMAXPROCS': '2'}
     e.update(env or {})
-    rs = vlib.run_workers(binary, test, nshards or vlib.NCPU, env=e)
+    rs = []
+    for tname in (test if isinstance(test, (list, tuple)) else [test]):
+        rs += vlib.run_workers(binary, tname, nshards or vlib.NCPU, env=e)
     bysig = {}
     herr = [r['harness_error'] for r in rs if r.get('harness_error')]
     for r in rs:
